@@ -12,7 +12,7 @@
     op      :=  unary <f> | binaryQ <f> <expr> <vbits> | binarySelf <f> | mulUnit <expr> | powUnit <p/q>
                 | inBase <sys|-> | toUnit <expr>
 
-  c11.routes                      → ok <route>=<17 flags 0/1> …          (the regenerated table, for the dump check)
+  c11.routes                      → ok <route>=<18 flags 0/1> …          (the regenerated table, for the dump check)
   c11.restore <route> obj         → ok obj | err <Name>                  (`Persist.restore` with the route's regenerated cfg)
   c11.guard   <route> obj         → ok 0|1                               (`Persist.restoreGuard`)
   c11.follow  obj op              → ok <vals> <unit|none> | err <Name>   (`Persist.follow`)
@@ -33,7 +33,7 @@ def flagsStr (c : RouteCfg) : String :=
   String.join [b c.keepsValues, b c.keepsDtype, b c.keepsClass, b c.unitSame, b c.unitByDisplayStr,
     b c.unitDataCarried, b c.unitCanon.onCanon, b c.unitCanon.onNon, b c.regSame, b c.keepsAdded,
     b c.keepsModifiedDefault, b c.keepsRemoved, b c.userRowCanon.onCanon, b c.userRowCanon.onNon,
-    b c.dfltRowCanon.onCanon, b c.dfltRowCanon.onNon, b c.keepsUnitSystem]
+    b c.dfltRowCanon.onCanon, b c.dfltRowCanon.onNon, b c.keepsUnitSystem, b c.keepsFlagOnlyDefault]
 
 def parseExpr (s : String) : Option (UExpr Float) :=
   match s.splitOn "@" with
